@@ -1,3 +1,121 @@
-(** * C08 -- equivalent XPath spellings evaluate identically; precedence per grammar.  (under construction) *)
-From Coq Require Import List NArith.
-From XmlRs Require Import Base.CPred Model.Peg Gen.GrammarXPathGen Proofs.XPathParseProds.
+(** * C08 -- equivalent XPath spellings evaluate identically; precedence per grammar.
+
+    FULL STATEMENT (DESIGN 5, C08):
+
+      Theorem parse_spell : forall a sp, ok_spelling a sp ->
+        exists e, parse_expr (spell a sp) = POk e [] /\ abs_or e ≈ a.
+      Theorem spelling_irrelevant : forall doc bind a sp1 sp2,
+        ok_spelling a sp1 -> ok_spelling a sp2 ->
+        query_model doc bind (spell a sp1) = query_model doc bind (spell a sp2).
+
+    where [a : xexpr] ranges over all abstract syntax trees of XPath 1.0 (Spec/XPathSyntax.v), a
+    spelling [sp] of [a] is ANY tree derivable from the grammar of the recommendation that the
+    recommendation declares equivalent to [a] (abbreviated or unabbreviated steps, [//], [.],
+    [..], [@], omitted [child::], [n] or [position()=n], redundant parentheses) together with
+    any choice of white space between tokens, [parse_expr] is the model of
+    [xml_xpath::expr::parse] (the grammar REGENERATED from xpath/src/expr/mod.rs by T2,
+    interpreted by Model/Peg.v, with the [map] functions interpreted by
+    Model/ParseActionsXPath.v), and [abs_or] reads the Rust AST as a tree of the recommendation.
+
+    PROVED HERE (rung 1 of the ladder): [parse_spell_partial_operators] -- the statement above for
+    every spelling whose tree is built from the eight operator levels, unary minus, literals,
+    numbers, variable references, function calls and parentheses (no location paths, no
+    predicates).  It is in fact stronger than [≈]: the parser returns exactly the tree that
+    was spelled ([parse_spell_surface_operators]).  Precedence and left associativity are
+    corollaries ([precedence_right], [precedence_left], [left_assoc], [unary_binds_tighter],
+    [union_binds_tightest]) together with [other_grouping_needs_parentheses].
+
+    MISSING: (1) steps, predicates and location paths in [parse_spell] (the lexical lemmas and
+    the chain machinery are in place; what is missing is the case analysis of [step],
+    [node_test], [axis_specifier], [relative_location_path], [filter_expr] with predicates);
+    (2) [spelling_irrelevant]: it follows from [parse_spell] once the evaluator model
+    (Model/XPathEval.v, property C05) is shown to respect [≈]; until then that half is
+    established by the failing-input search of checks/C08.py on the real [query] (every
+    generated spelling pair is evaluated on documents).
+
+    KNOWN FINDING C08-fname-case: after the D28 repair a function name that equals a NodeType up
+    to letter case is rejected; [fname_case_ok] excludes it ([KnownFnameCase] is its negation on derivable names), [fname_case_refuted] is the witness [Text()]. *)
+From Coq Require Import List NArith Arith Bool.
+From XmlRs Require Import Base.CPred Spec.XPathSyntax Model.Peg Model.XPathAst
+  Model.ParseActionsXPath Model.XPathAstAbs Proofs.XPathParseExpr Proofs.XPathParsePrecedence.
+Import ListNotations.
+
+(** the parser of XPath expressions terminates on every input (parser half of C06) *)
+Theorem xpath_parse_terminates : forall s : str, run_expr s <> Oof.
+Proof. exact xpath_parse_terminates_proof. Qed.
+
+Theorem xpath_parse_never_oof : forall s : str, parse_expr s <> POof.
+Proof. exact xpath_parse_never_oof_proof. Qed.
+
+(** the surface round trip: what was spelled is what is parsed *)
+Theorem parse_spell_surface_operators : forall (a : xexpr) (w : wtree),
+  wfb a = true -> rung1 a = true -> ws_ok w = true ->
+  exists e, parse_expr (spell_surface a w) = POk e [] /\ abs_or e = a.
+Proof. exact parse_spell_surface_operators_proof. Qed.
+
+Theorem parse_spell_partial_operators : forall (a : xexpr) (sp : spelling),
+  ok_spelling a sp -> rung1 (surface sp) = true ->
+  exists e, parse_expr (spell a sp) = POk e [] /\ abs_or e ≈ a.
+Proof. exact parse_spell_partial_operators_proof. Qed.
+
+(** [a o1 b o2 c] with [o2] binding tighter groups to the right *)
+Theorem precedence_right : forall o1 o2 a b c w,
+  (lvl o1 < lvl o2)%nat -> operand a -> operand b -> operand c -> ws_ok w = true ->
+  exists e, parse_expr (spell_surface (XBin o1 a (XBin o2 b c)) w) = POk e [] /\
+            abs_or e = XBin o1 a (XBin o2 b c).
+Proof. exact precedence_right_proof. Qed.
+
+(** [a o1 b o2 c] with [o1] binding at least as tight groups to the left: higher precedence on
+    the left, and LEFT ASSOCIATIVITY when the levels are equal *)
+Theorem precedence_left : forall o1 o2 a b c w,
+  (lvl o2 <= lvl o1)%nat -> operand a -> operand b -> operand c -> ws_ok w = true ->
+  exists e, parse_expr (spell_surface (XBin o2 (XBin o1 a b) c) w) = POk e [] /\
+            abs_or e = XBin o2 (XBin o1 a b) c.
+Proof. exact precedence_left_proof. Qed.
+
+Theorem left_assoc : forall o a b c w,
+  operand a -> operand b -> operand c -> ws_ok w = true ->
+  exists e, parse_expr (spell_surface (XBin o (XBin o a b) c) w) = POk e [] /\
+            abs_or e = XBin o (XBin o a b) c.
+Proof. exact left_assoc_proof. Qed.
+
+(** the other grouping is not what the unparenthesised string means: it is not derivable
+    without parentheses *)
+Theorem other_grouping_needs_parentheses : forall o1 o2 a b c,
+  ((lvl o1 < lvl o2)%nat -> wfb (XBin o2 (XBin o1 a b) c) = false) /\
+  ((lvl o2 <= lvl o1)%nat -> wfb (XBin o1 a (XBin o2 b c)) = false).
+Proof. exact other_grouping_needs_parentheses_proof. Qed.
+
+(** unary minus binds tighter than every binary operator except union ... *)
+Theorem unary_binds_tighter : forall o a b w,
+  (lvl o < 6)%nat -> operand a -> operand b -> ws_ok w = true ->
+  exists e, parse_expr (spell_surface (XBin o (XNeg a) b) w) = POk e [] /\
+            abs_or e = XBin o (XNeg a) b.
+Proof. exact unary_binds_tighter_proof. Qed.
+
+(** ... and looser than union: the spelling of -(a|b) needs no parentheses *)
+Theorem union_binds_tightest : forall a b w,
+  operand a -> operand b -> ws_ok w = true ->
+  exists e, parse_expr (spell_surface (XNeg (XBin BUnion a b)) w) = POk e [] /\
+            abs_or e = XNeg (XBin BUnion a b).
+Proof. exact union_binds_tightest_proof. Qed.
+
+(** the hypotheses are satisfiable by a non-trivial value (Proofs/XPathParsePrecedence.v) *)
+Check ex_hypotheses : wfb ex_tree = true /\ rung1 ex_tree = true /\ ws_ok ex_white = true.
+
+(** the known finding: a function name that differs from a NodeType only in letter case *)
+Theorem fname_case_refuted : exists f : xqname,
+  KnownFnameCase f = true /\ wfb (XCall f []) = true /\
+  forall e, parse_expr (spell_surface (XCall f []) (W false [] [])) <> POk e [].
+Proof. exact fname_case_refuted_proof. Qed.
+
+Print Assumptions xpath_parse_terminates.
+Print Assumptions parse_spell_surface_operators.
+Print Assumptions parse_spell_partial_operators.
+Print Assumptions precedence_right.
+Print Assumptions precedence_left.
+Print Assumptions left_assoc.
+Print Assumptions other_grouping_needs_parentheses.
+Print Assumptions unary_binds_tighter.
+Print Assumptions union_binds_tightest.
+Print Assumptions fname_case_refuted.
